@@ -73,6 +73,7 @@ type vC09Harness struct {
 	revs    []string
 	seqRank map[uint64]int
 	verRank map[uint64]int
+	nMinted int
 	crcID   map[string]int
 	uxID    map[string]int
 	nExtB   int
@@ -334,6 +335,34 @@ func (h *vC09Harness) bodyOfRev(rev, parent string, deleted bool) int {
 	return id
 }
 
+// rankSeqVer numbers the sequence and the current version carried by captured mutation j at first sight.  A version
+// minted by an import is the CAS of the (earlier) mutation it imported, and _vv.cvCas equals it: it is numbered as that
+// mutation.  A version minted by a gateway write comes from the gateway's clock (it may coincide with a CAS value) and
+// _vv.cvCas is the write's own CAS: it is numbered 1001, 1002, ...
+func (h *vC09Harness) rankSeqVer(sd *SyncData, rawVv []byte, j int) {
+	if sd.Sequence != 0 {
+		if _, ok := h.seqRank[sd.Sequence]; !ok {
+			h.seqRank[sd.Sequence] = len(h.seqRank) + 1
+		}
+	}
+	ver := vC09HexCas(sd.RevAndVersion.CurrentVersion)
+	if _, ok := h.verRank[ver]; ok || ver == 0 {
+		return
+	}
+	var vv struct {
+		CvCas string `json:"cvCas"`
+	}
+	if len(rawVv) > 0 {
+		_ = base.JSONUnmarshal(rawVv, &vv)
+	}
+	if i, isCas := h.casIdx[ver]; isCas && i < j && vC09HexCas(vv.CvCas) == ver {
+		h.verRank[ver] = i
+	} else {
+		h.nMinted++
+		h.verRank[ver] = 1000 + h.nMinted
+	}
+}
+
 func vC09HexCas(s string) uint64 {
 	if s == "" {
 		return 0
@@ -346,10 +375,19 @@ func (h *vC09Harness) snapshot() vObj {
 	h.barrier()
 	h.mu.Lock()
 	nf, nx := len(h.full), len(h.xo)
+	var fresh []sgbucket.FeedEvent
 	for i := len(h.casIdx); i < nf; i++ {
 		h.casIdx[h.full[i].Cas] = i + 1
+		fresh = append(fresh, h.full[i])
 	}
 	h.mu.Unlock()
+	// sequences and gateway-minted versions are numbered in the order the MUTATIONS carried them (a step may mutate the
+	// document twice; the intermediate state is only visible in the captured event)
+	for _, ev := range fresh {
+		if raw, sd, err := UnmarshalDocumentSyncDataFromFeed(ev.Value, ev.DataType, vC09UserXattr, false); err == nil && sd != nil {
+			h.rankSeqVer(sd, raw.Xattrs[base.VvXattrName], h.casIdx[ev.Cas])
+		}
+	}
 	if nf != nx {
 		h.t.Fatalf("VERIF-FATAL C09: feeds captured %d / %d mutations of %s", nf, nx, h.key)
 	}
@@ -423,22 +461,12 @@ func (h *vC09Harness) snapshot() vObj {
 			}
 			meta["revs"] = revs
 			meta["cur"] = h.revIdx[sd.GetRevTreeID()]
-			if _, ok := h.seqRank[sd.Sequence]; !ok {
-				h.seqRank[sd.Sequence] = len(h.seqRank) + 1
-			}
 			meta["seq"] = h.seqRank[sd.Sequence]
 			// current version: _sync.rev and _vv must agree
 			ver := vC09HexCas(sd.RevAndVersion.CurrentVersion)
 			cv := 0
 			if ver != 0 {
-				if i, ok := h.casIdx[ver]; ok {
-					cv = i
-				} else {
-					if _, ok := h.verRank[ver]; !ok {
-						h.verRank[ver] = 1000 + len(h.verRank) + 1
-					}
-					cv = h.verRank[ver]
-				}
+				cv = h.verRank[ver]
 			}
 			var vv struct {
 				Ver string `json:"ver"`
@@ -669,7 +697,7 @@ func (h *vC09Harness) replay(tw *vTraceWriter, bi int, b vC09Beh) (aborted bool)
 	h.seqRank, h.verRank, h.sgRev = map[uint64]int{}, map[uint64]int{}, map[int]string{}
 	h.crcID = map[string]int{base.DeleteCrc32c: 0}
 	h.uxID = map[string]int{"": 0}
-	h.nExtB, h.wk, h.fedSet, h.inF, h.strange = 0, 0, map[int]bool{}, 0, nil
+	h.nExtB, h.wk, h.fedSet, h.inF, h.strange, h.nMinted = 0, 0, map[int]bool{}, 0, nil, 0
 	h.pF = &vC09Proc{name: "feed import", st: "idle", release: make(chan struct{})}
 	h.pG = &vC09Proc{name: "read", st: "idle", release: make(chan struct{})}
 	h.pW = &vC09Proc{name: "write", st: "idle", release: make(chan struct{})}
